@@ -143,10 +143,13 @@ func programs() []*Program {
 			ox := msg("OX", []string{"Choice", "other"}, fld("Name", TString),
 				fld("Alpha", TString).oneof(0), fld("Beta", TInt64).oneof(0), fld("Gamma", TString).oneof(0),
 				fld("First", TString).oneof(1), fld("Second", TBool).oneof(1))
-			return &FileSpec{Name: "p.proto", Msgs: []*M{ox, msg("OXH", nil, mfld("V", "OX").nonnull(), mfld("P", "OX"))}}
+			// a root message whose very first field is a oneof branch, and one that consists of a oneof only
+			of := msg("OF", []string{"pick"}, fld("Head", TString).oneof(0), fld("Next", TInt64).oneof(0), fld("Tail", TString))
+			oo := msg("OO", []string{"Only"}, fld("A", TString).oneof(0), fld("B", TBool).oneof(0))
+			return &FileSpec{Name: "p.proto", Msgs: []*M{ox, msg("OXH", nil, mfld("V", "OX").nonnull(), mfld("P", "OX")), of, oo}}
 		},
 		Cfg: func() *Config {
-			c := baseConfig("OX", "OXH")
+			c := baseConfig("OX", "OXH", "OF", "OO")
 			c.ExcludeFields = []string{"OX.Gamma", "OX.First"}
 			return c
 		}})
@@ -184,10 +187,39 @@ func programs() []*Program {
 	add(&Program{Name: "P-embed-t", Quick: true,
 		File: func() *FileSpec {
 			et := msg("EmbT", nil, tsfld("XTs"), dufld("XDu"), tsfld("XTsV").nonnull(), mfld("XVal", "Leaf").nonnull(), fld("XRaw", TBytes))
-			return &FileSpec{Name: "p.proto", Msgs: []*M{leafMsg(), et,
-				msg("EX3", nil, fld("Own", TString), mfld("EmbT", "EmbT").embed())}}
+			// a by-value message as the first field of a nullable embedded message (nothing before it allocates the embed)
+			ev := msg("EmbV", nil, mfld("Box", "Leaf").nonnull(), fld("Note", TString), mfld("Boxes", "Leaf").nonnull().rep())
+			return &FileSpec{Name: "p.proto", Msgs: []*M{leafMsg(), et, ev,
+				msg("EX3", nil, fld("Own", TString), mfld("EmbT", "EmbT").embed()),
+				msg("EX4", nil, mfld("EmbV", "EmbV").embed(), fld("Own", TString))}}
 		},
-		Cfg: func() *Config { return baseConfig("EX3") }})
+		Cfg: func() *Config { return baseConfig("EX3", "EX4") }})
+
+	// two nullable embedded messages in one message (each with several fields)
+	add(&Program{Name: "P-embed-2", Quick: true,
+		File: func() *FileSpec {
+			ea := msg("EmbA", nil, fld("A1", TString), fld("A2", TInt64))
+			eb := msg("EmbB", nil, fld("B1", TString), fld("B2", TBool))
+			return &FileSpec{Name: "p.proto", Msgs: []*M{ea, eb, msg("E22", nil, mfld("EmbA", "EmbA").embed(), fld("Own", TString), mfld("EmbB", "EmbB").embed())}}
+		},
+		Cfg: func() *Config { return baseConfig("E22") }})
+
+	// a map of messages next to singular message fields named like the fields of a map entry (key / value)
+	add(&Program{Name: "P-mapvalue", Quick: true, Bounds: map[string][2]int{"refresh": {2, 1}, "echo": {2, 1}, "corrupt": {1, 1}},
+		File: func() *FileSpec {
+			mv := msg("MV", nil, mapfld("Entries", mfld("v", "Leaf")), mfld("Value", "Leaf"), mfld("Key", "Leaf"), fld("Tag", TString))
+			return &FileSpec{Name: "p.proto", Msgs: []*M{leafMsg(), mv, msg("MVR", nil, mfld("In", "MV").nonnull(), mfld("InP", "MV"))}}
+		},
+		Cfg: func() *Config { return baseConfig("MVR") }})
+
+	// lower_snake proto field names in a message that occurs below the root in several contexts:
+	// base of the C11 variants with Message.field keys
+	add(&Program{Name: "P-lower", Quick: true,
+		File: func() *FileSpec {
+			lf := msg("Lf", nil, fld("note", TString), fld("hit_count", TInt64), fld("Label", TString))
+			return &FileSpec{Name: "p.proto", Msgs: []*M{lf, msg("Lr", nil, mfld("first", "Lf"), mfld("Second", "Lf").nonnull(), mfld("items", "Lf").rep(), fld("own", TString))}}
+		},
+		Cfg: func() *Config { return baseConfig("Lr") }})
 
 	// sort: true - the generated statements follow the Go names, so the branches of two oneof groups
 	// and the flattened fields of an embedded message interleave with each other and with own fields
@@ -415,7 +447,7 @@ func programs() []*Program {
 		Cfg: func() *Config {
 			c := baseConfig("Fl")
 			c.RequiredFields = []string{"Fl.A", "FlSub.X", "Fl.Roles", "Fl.Labels", "Fl.L", "Fl.Subs"}
-			c.ComputedFields = []string{"Fl.B", "Fl.Sub.Y", "Fl.C", "Fl.Seen"}
+			c.ComputedFields = []string{"Fl.B", "Fl.Sub.Y", "Fl.C", "Fl.Seen", "Fl.A", "FlSub.X", "Fl.Roles"}
 			c.SensitiveFields = []string{"Fl.C", "FlSub.Y"}
 			c.UseStateForUnknownByDefault = true
 			c.Validators = map[string][]string{"Fl.A": {"UseMockValidator()"}, "FlSub.X": {"UseMockValidator()", "UseMockValidator()"}}
